@@ -307,6 +307,32 @@ Definition parse_exit (d : bytes) : option N :=
          end
   end.
 
+(* `unhex` / `unhexerr`: the argument is lower-case hexadecimal, the bytes it spells are written
+   to stdout / stderr (so that a script can produce any content at all) *)
+Definition hex_digit (b : byte) : option N :=
+  let n := bN b in
+  if N.leb 48 n && N.leb n 57 then Some (n - 48)%N
+  else if N.leb 97 n && N.leb n 102 then Some (n - 87)%N
+  else None.
+
+Fixpoint unhex_bytes (d : bytes) : option bytes :=
+  match d with
+  | [] => Some []
+  | a :: r =>
+      match r with
+      | [] => None
+      | c :: r' =>
+          match hex_digit a, hex_digit c, unhex_bytes r' with
+          | Some x, Some y, Some t =>
+              match Byte.of_N (16 * x + y) with
+              | Some v => Some (v :: t)
+              | None => None
+              end
+          | _, _, _ => None
+          end
+      end
+  end.
+
 (* the subcommands that do not touch the file tree: (exit code, stdout, stderr, sleeper) *)
 Definition pure_res := (N * bytes * bytes * bool)%type.
 Definition pres (code : N) (out err : bytes) : pure_res := (code, out, err, false).
@@ -338,6 +364,16 @@ Definition helper_pure (sub : bytes) (a : list bytes) (stdin : bytes) (env : lis
     match a with [x] => pres 0 x [] | _ => usage end
   else if bytes_eqb sub ((* "printerr" *) [x70; x72; x69; x6e; x74; x65; x72; x72]) then
     match a with [x] => pres 0 [] x | _ => usage end
+  else if bytes_eqb sub ((* "unhex" *) [x75; x6e; x68; x65; x78]) then
+    match a with
+    | [x] => match unhex_bytes x with Some d => pres 0 d [] | None => usage end
+    | _ => usage
+    end
+  else if bytes_eqb sub ((* "unhexerr" *) [x75; x6e; x68; x65; x78; x65; x72; x72]) then
+    match a with
+    | [x] => match unhex_bytes x with Some d => pres 0 [] d | None => usage end
+    | _ => usage
+    end
   else if bytes_eqb sub ((* "cat" *) [x63; x61; x74]) then
     match a with [] => pres 0 stdin [] | _ => usage end
   else if bytes_eqb sub ((* "env" *) [x65; x6e; x76]) then
